@@ -10,6 +10,8 @@ class OOB(Exception):
     """a concrete-offset access outside its object (C06 violation candidate)"""
     def __init__(s,kind,obj,off,n,size): s.kind=kind; s.obj=obj; s.off=off; s.n=n; s.size=size; Exception.__init__(s,'%s of %d bytes at %s+%s (object size %s)'%(kind,n,obj,off,size))
 class Unbound(Exception): pass
+class Unsupported(Exception):
+    """engine limitation (never a verdict about the code)"""
 class Ptr:
     __slots__=('obj','off')
     def __init__(s,obj,off): s.obj=obj; s.off=off
@@ -206,7 +208,7 @@ def split_top(sx):
 
 # ---------------- memory: objects with byte dict (concrete offsets only in prototype)
 class Mem:
-    def __init__(s): s.objs={}; s.n=0; s.checks=[]; s.symload={}; s.cand_checks=[]; s.watch={}
+    def __init__(s): s.objs={}; s.n=0; s.checks=[]; s.symload={}; s.cand_checks=[]; s.watch={}; s.rwatch={}
     def alloc(s,size,name=None,init=None):
         s.n+=1; k=name or 'o%d'%s.n; s.objs[k]={'size':size,'bytes':{} if init is None else init,'ch':{}}; return Ptr(k,0)
     def _explode(s,o,off):
@@ -247,6 +249,7 @@ class Mem:
         if nbytes>o.get('maxch',0): o['maxch']=nbytes
     def load(s,p,nbytes):
         if p.obj not in s.objs: raise OOB('load through null/unknown pointer',p.obj,p.off,nbytes,0)
+        if s.rwatch and p.obj in s.rwatch: s.rwatch[p.obj](p,nbytes)
         o=s.objs[p.obj]
         if p.obj in s.symload and ('arr' in o or not is_c(p.off)):
             s.checks.append((p.obj,bv(p.off,64),nbytes,o['size'],'load')); return s.symload[p.obj](p.off,nbytes)
@@ -258,9 +261,14 @@ class Mem:
         if not is_c(p.off):
             # small concrete object, symbolic offset: ite-chain over the written, aligned offsets; extent recorded as a check
             s.checks.append((p.obj,p.off,nbytes,o['size'],'load'))
+            allc=sorted(k for k in o['ch'] if o['ch'][k][1]==nbytes)
+            if any(isinstance(o['ch'][k][0],Ptr) for k in allc) and getattr(s,'forker',None) is not None:
+                # cells hold pointers: the index is concretised by solver-driven forking over the cell offsets
+                s.cand_checks.append((p.obj,p.off,tuple(allc),'load'))
+                k=s.forker.concretize(p.off,allc); return o['ch'][k][0]
             cands=sorted(k for k in o['ch'] if o['ch'][k][1]==nbytes and not isinstance(o['ch'][k][0],Ptr))
             s.cand_checks.append((p.obj,p.off,tuple(cands),'load'))
-            if not cands: raise OOB('load at symbolic offset: no candidate cell',p.obj,str(p.off)[:80],nbytes,o['size'])
+            if not cands: raise Unsupported('load at symbolic offset %s from %s: no candidate cell of %d bytes'%(str(p.off)[:80],p.obj,nbytes))
             v=None
             for k in reversed(cands):
                 x=bv(o['ch'][k][0],8*nbytes); v=x if v is None else z3.If(p.off==k,x,v)
@@ -281,7 +289,7 @@ class Mem:
 
 # ---------------- interpreter
 class Interp:
-    def __init__(s,mod,mem=None): s.mod=mod; s.mem=mem or Mem(); s.tp=mod.tp; s.gl={}; s.steps=0; s.hooks={}; s.trace=[]; s.cut=None; s.intr_hooks={}; s.mxcsr=z3.BitVec('mxcsr_entry',32); s.pending_exc=None; s.fork={'prefix':[],'taken':[],'pc':[],'pending':[],'queries':0}
+    def __init__(s,mod,mem=None): s.mod=mod; s.mem=mem or Mem(); s.tp=mod.tp; s.gl={}; s.steps=0; s.hooks={}; s.trace=[]; s.cut=None; s.intr_hooks={}; s.mem.forker=s; s.mxcsr=z3.BitVec('mxcsr_entry',32); s.pending_exc=None; s.fork={'prefix':[],'taken':[],'pc':[],'pending':[],'queries':0}
     # ---- forking by re-execution: decisions are replayed from a prefix, new ones are explored DFS
     def decide(s,c):
         cs=z3.simplify(c)
@@ -298,6 +306,14 @@ class Interp:
             ch=feas[0]
             if len(feas)==2: fk['pending'].append(fk['prefix'][:i]+fk['taken'][len(fk['prefix']):]+[feas[1]]) if False else fk['pending'].append(fk['taken']+[feas[1]])
         fk['taken'].append(ch); fk['pc'].append(c==ch); return ch
+    def concretize(s,term,values):
+        """fork on which of the given concrete values a symbolic term takes (values infeasible under the path condition are skipped by decide)"""
+        term=bv(term,64)
+        for v in values:
+            sol=z3.Solver(); sol.add(*s.fork['pc']); sol.add(term==v); s.fork['queries']+=1
+            if sol.check()!=z3.sat: continue
+            if s.decide(z3.If(term==v,z3.BitVecVal(1,1),z3.BitVecVal(0,1))): return v
+        raise OOB('access at an offset that matches no cell','?',str(term)[:80],0,0)
     def rm(s):
         m=s.mxcsr
         return (m>>13)&3 if is_c(m) else z3.Extract(14,13,m)
